@@ -195,7 +195,8 @@ class Interp:
     # ------------------------------------------------------------------ public
     def call(self, fn: FunctionInfo, *args: Any, **kwargs: Any) -> Any:
         """Interpret an in-repo function.  Generators return the list of yielded values."""
-        return self._invoke(fn, list(args), kwargs, None)
+        out = self._invoke(fn, list(args), kwargs, None)
+        return list(out) if type(out).__name__ == "list_iterator" else out
 
     def getattr(self, obj: Any, name: str) -> Any:
         return self._getattr(obj, name, None)
@@ -248,7 +249,9 @@ class Interp:
             except _Return as r:
                 result = r.value
             if is_gen:
-                return env.yields
+                # evaluated eagerly (the evaluated code is pure), handed out as an iterator: consuming part of it and then the rest
+                # (`for x in gen: break` ... `yield from gen`) continues where the first loop stopped, as with a real generator
+                return iter(env.yields)
             return result
         finally:
             self.depth -= 1
@@ -470,6 +473,9 @@ class Interp:
                     self._assign(e, v, env)
         elif isinstance(target, ast.Attribute):
             obj = self.eval(target.value, env)
+            if isinstance(obj, ast.AST):
+                setattr(obj, target.attr, value)  # a syntax-tree node handed in by a rule: plain data (e.g. the `parent` links the visitor adds)
+                return
             if not isinstance(obj, Obj):
                 raise AnalysisError(f"attribute store on non-abstract object: {unparse(target)}")
             setter = None
@@ -961,6 +967,10 @@ class Interp:
             if not hasattr(obj, attr):
                 raise Raised("AttributeError")
             return ("native", obj, attr)
+        if type(obj).__module__ == "builtins" and not hasattr(obj, attr):
+            raise Raised("AttributeError")  # a builtin value (bytes, float, Ellipsis, ...) that simply has no such attribute
+        if isinstance(obj, (bytes, float, complex)):
+            return ("native", obj, attr)
         raise AnalysisError(f"attribute access `{attr}` on {type(obj).__name__} not modelled")
 
     def _is_int_enum(self, cls: ClassInfo) -> bool:
@@ -1046,7 +1056,7 @@ class Interp:
                 res = None
             except _Return as r:
                 res = r.value
-            return cenv.yields if is_gen else res
+            return iter(cenv.yields) if is_gen else res
         if isinstance(f, ClassRef):
             return self._construct(f.cls, args, kwargs)
         if isinstance(f, Native):
@@ -1097,6 +1107,7 @@ class Interp:
         init = self.prog.lookup_method(cls, "__init__")
         if init:
             self._invoke(init[0], [obj, *args], kwargs, None)
+            obj.attrs.setdefault("__closed__", True)  # built by its own constructor: the attribute set is complete, a missing one raises AttributeError
             return obj
         # dataclass-style: bind fields from annotations in MRO order
         fields: list[str] = []
